@@ -132,7 +132,7 @@ def gen_case(rng, tier):
             iq = {"kind": "table", "table": [[str(F(v, 4))] * nA for v in (rng.choice(nz) for _ in range(n))]}
         temp, eps = "0", rng.choice(["0", "1/20", "1/20"])
         alpha = rng.choice(["1/8", "1/2", "1"])
-        episodes = rng.choice([3, 5, 8, 12])
+        episodes = rng.choice([3, 5, 8])
     if not ties and rng.random() < .2:
         # reward-scale family: Q-values around 2^20 that differ by multiples of 2^-12 (relative gap < 1e-9):
         # the greedy policy must separate them exactly.  Step size 1 => Q = reward on terminal transitions.
@@ -494,7 +494,7 @@ def search_failing(case, res, impl_rows, impl_pol):
 # ---------------------------------------------------------------------------------------------
 def run(ctx):
     tier = ctx.tier
-    ncases = 200 if tier == "quick" else 3000
+    ncases = 170 if tier == "quick" else 3000
     if ctx.replay_case:
         cases = [ctx.replay_case["detail"]["case"]]
     else:
